@@ -307,32 +307,32 @@ inline void apply(World &w, const Op &op) {
       int x = ++base, p = op.a;
       long ret = -1;
       T t = E::make(x);
-      exec(sz + 1, p, [&] { ret = VV.insert(VV.begin() + p, t) - VV.begin(); }, [&] { m.v.insert(m.v.begin() + p, x); chk_pos(ret, p); });
+      exec(sz + 1, p, [&] { { auto it_ = VV.insert(VV.begin() + p, t); ret = it_ - VV.begin(); } }, [&] { m.v.insert(m.v.begin() + p, x); chk_pos(ret, p); });
     } break;
     case INS_M: {
       int x = ++base, p = op.a;
       long ret = -1;
       T t = E::make(x);
-      exec(sz + 1, p, [&] { ret = VV.insert(VV.begin() + p, std::move(t)) - VV.begin(); }, [&] { m.v.insert(m.v.begin() + p, x); chk_pos(ret, p); });
+      exec(sz + 1, p, [&] { { auto it_ = VV.insert(VV.begin() + p, std::move(t)); ret = it_ - VV.begin(); } }, [&] { m.v.insert(m.v.begin() + p, x); chk_pos(ret, p); });
     } break;
     case EMPLACE: {
       int x = ++base, p = op.a;
       long ret = -1;
       auto arg = emplace_arg(x);
-      exec(sz + 1, p, [&] { ret = VV.emplace(VV.begin() + p, std::move(arg)) - VV.begin(); }, [&] { m.v.insert(m.v.begin() + p, x); chk_pos(ret, p); });
+      exec(sz + 1, p, [&] { { auto it_ = VV.emplace(VV.begin() + p, std::move(arg)); ret = it_ - VV.begin(); } }, [&] { m.v.insert(m.v.begin() + p, x); chk_pos(ret, p); });
     } break;
     case INS_N: {
       int x = ++base, p = op.a, n = op.b;
       long ret = -1;
       T t = E::make(x);
-      exec(sz + n, p, [&] { ret = VV.insert(VV.begin() + p, (typename V::size_type)n, t) - VV.begin(); }, [&] { m.v.insert(m.v.begin() + p, n, x); chk_pos(ret, p); });
+      exec(sz + n, p, [&] { { auto it_ = VV.insert(VV.begin() + p, (typename V::size_type)n, t); ret = it_ - VV.begin(); } }, [&] { m.v.insert(m.v.begin() + p, n, x); chk_pos(ret, p); });
     } break;
     case INS_RANGE: {
       int p = op.a, n = op.b;
       std::vector<int> vals = fresh_vals(n);
       long ret = -1;
       with_range(op.c, vals, [&](auto f, auto l) {
-        exec(sz + n, p, [&] { ret = VV.insert(VV.begin() + p, f, l) - VV.begin(); }, [&] { m.v.insert(m.v.begin() + p, vals.begin(), vals.end()); chk_pos(ret, p); });
+        exec(sz + n, p, [&] { { auto it_ = VV.insert(VV.begin() + p, f, l); ret = it_ - VV.begin(); } }, [&] { m.v.insert(m.v.begin() + p, vals.begin(), vals.end()); chk_pos(ret, p); });
       });
     } break;
     case INS_IL: {
@@ -343,21 +343,21 @@ inline void apply(World &w, const Op &op) {
       long ret = -1;
       exec(sz + n, p, [&] {
         auto it = VV.begin() + p;
-        if (n == 0) ret = VV.insert(it, std::initializer_list<T>{}) - VV.begin();
-        else if (n == 1) ret = VV.insert(it, {a}) - VV.begin();
-        else if (n == 2) ret = VV.insert(it, {a, b}) - VV.begin();
-        else ret = VV.insert(it, {a, b, c}) - VV.begin();
+        if (n == 0) { auto it_ = VV.insert(it, std::initializer_list<T>{}); ret = it_ - VV.begin(); }
+        else if (n == 1) { auto it_ = VV.insert(it, {a}); ret = it_ - VV.begin(); }
+        else if (n == 2) { auto it_ = VV.insert(it, {a, b}); ret = it_ - VV.begin(); }
+        else { auto it_ = VV.insert(it, {a, b, c}); ret = it_ - VV.begin(); }
       }, [&] { m.v.insert(m.v.begin() + p, vals.begin(), vals.end()); chk_pos(ret, p); });
     } break;
     case ERASE: {
       int p = op.a;
       long ret = -1;
-      exec(sz - 1, p, [&] { ret = VV.erase(VV.begin() + p) - VV.begin(); }, [&] { m.v.erase(m.v.begin() + p); chk_pos(ret, p); });
+      exec(sz - 1, p, [&] { { auto it_ = VV.erase(VV.begin() + p); ret = it_ - VV.begin(); } }, [&] { m.v.erase(m.v.begin() + p); chk_pos(ret, p); });
     } break;
     case ERASE_R: {
       int a = op.a, b = op.b;
       long ret = -1;
-      exec(sz - (b - a), a, [&] { ret = VV.erase(VV.begin() + a, VV.begin() + b) - VV.begin(); }, [&] { m.v.erase(m.v.begin() + a, m.v.begin() + b); chk_pos(ret, a); });
+      exec(sz - (b - a), a, [&] { { auto it_ = VV.erase(VV.begin() + a, VV.begin() + b); ret = it_ - VV.begin(); } }, [&] { m.v.erase(m.v.begin() + a, m.v.begin() + b); chk_pos(ret, a); });
     } break;
     case RESIZE: {
       int n = op.a;
@@ -478,17 +478,17 @@ inline void apply(World &w, const Op &op) {
     case INS_ALIAS: {
       int p = op.a, s = op.b, x = m.v[s];
       long ret = -1;
-      exec(sz + 1, p, [&] { ret = VV.insert(VV.begin() + p, VV[s]) - VV.begin(); }, [&] { m.v.insert(m.v.begin() + p, x); chk_pos(ret, p); });
+      exec(sz + 1, p, [&] { { auto it_ = VV.insert(VV.begin() + p, VV[s]); ret = it_ - VV.begin(); } }, [&] { m.v.insert(m.v.begin() + p, x); chk_pos(ret, p); });
     } break;
     case INS_N_ALIAS: {
       int p = op.a, n = op.b, s = op.c, x = m.v[s];
       long ret = -1;
-      exec(sz + n, p, [&] { ret = VV.insert(VV.begin() + p, (typename V::size_type)n, VV[s]) - VV.begin(); }, [&] { m.v.insert(m.v.begin() + p, n, x); chk_pos(ret, p); });
+      exec(sz + n, p, [&] { { auto it_ = VV.insert(VV.begin() + p, (typename V::size_type)n, VV[s]); ret = it_ - VV.begin(); } }, [&] { m.v.insert(m.v.begin() + p, n, x); chk_pos(ret, p); });
     } break;
     case EMPLACE_ALIAS: {
       int p = op.a, s = op.b, x = m.v[s];
       long ret = -1;
-      exec(sz + 1, p, [&] { ret = VV.emplace(VV.begin() + p, VV[s]) - VV.begin(); }, [&] { m.v.insert(m.v.begin() + p, x); chk_pos(ret, p); });
+      exec(sz + 1, p, [&] { { auto it_ = VV.emplace(VV.begin() + p, VV[s]); ret = it_ - VV.begin(); } }, [&] { m.v.insert(m.v.begin() + p, x); chk_pos(ret, p); });
     } break;
     case RESIZE_ALIAS: {
       int n = op.a, s = op.b, x = m.v[s];
